@@ -213,8 +213,8 @@ func runSelfValidation(pc *propertyCheck, R *Run, repo, verif string) {
 	}
 	R.Extra("self_validation", map[string]any{
 		"variants": len(results), "killed": killed, "survived": survived, "neutral_silent": silent, "neutral_false_alarm": falseAlarm, "skipped": skipped,
-		"note":     "breaking variants must be reported by this property's rules, behaviour-preserving ones must not; informational - the exit code reflects the analysed tree only",
-		"results":  results,
+		"note":    "breaking variants must be reported by this property's rules, behaviour-preserving ones must not; informational - the exit code reflects the analysed tree only",
+		"results": results,
 	})
 	fmt.Printf("self-validation %s: %d variants, %d killed, %d survived, %d neutral silent, %d neutral false alarms, %d skipped\n", pc.id, len(results), killed, survived, silent, falseAlarm, skipped)
 }
